@@ -106,10 +106,35 @@ fn site(rng: &mut Rng, n: usize, v: &str, need_non_null: bool) -> Site {
     }
 }
 
+/// a spelling of the path of `target` (a file of the same directory `ops/`): `resolve_relative_path` normalises them all
+/// to the path under which the file is registered
+fn spell(rng: &mut Rng, target: &str) -> String {
+    match rng.below(8) {
+        0..=3 => format!("./{target}"),
+        4 => target.to_string(),
+        5 => format!("../ops/{target}"),
+        6 => format!("./sub/../{target}"),
+        _ => format!("./././{target}"),
+    }
+}
+
+/// one `#import` line — or two lines that import from the same file (same or different spelling of its path: lines
+/// with the same path literal are merged by `resolve_operation_extensions`, the others meet in the import resolver)
 fn import_line(rng: &mut Rng, wildcard: bool, names: &[String], target: &str) -> String {
     let lead = if rng.chance(1, 4) { "  " } else { "" };
-    let what = if wildcard { "*".to_string() } else { names.join(if rng.coin() { ", " } else { " " }) };
-    format!("{lead}#import {what} from \"./{target}\"\n")
+    let sep = if rng.coin() { ", " } else { " " };
+    if wildcard {
+        let path = spell(rng, target);
+        return format!("{lead}#import * from \"{path}\"\n");
+    }
+    if names.len() >= 2 && rng.chance(1, 3) {
+        let k = 1 + rng.below(names.len() - 1);
+        let p1 = spell(rng, target);
+        let p2 = if rng.coin() { p1.clone() } else { spell(rng, target) };
+        return format!("{lead}#import {} from \"{p1}\"\n#import {} from \"{p2}\"\n", names[..k].join(sep), names[k..].join(sep));
+    }
+    let path = spell(rng, target);
+    format!("{lead}#import {} from \"{path}\"\n", names.join(sep))
 }
 
 /// lay a fragment out on several lines or on one
